@@ -38,7 +38,15 @@ def s1(run: Run, prog: Program):
         m = C.methods.get(mname) if C else None
         if m is None:
             raise AnalysisError(f"{cname}.{mname} vanished")
-        body = m.node.body
+        # the tail of a loader may live in a private helper: analyse the
+        # statements it stands for
+        from .idioms import inline_simple_helpers, is_bump_of
+
+        def _resolve(name, _C=C):
+            h = prog.lookup(_C, name)
+            return h.node if h is not None and name.startswith("_") and \
+                not name.startswith("__") else None
+        body = inline_simple_helpers(m.node, _resolve).body
         attach = [(i, st) for i, st in enumerate(body) if isinstance(st, ast.Assign)
                   and isinstance(st.targets[0], ast.Attribute)
                   and st.targets[0].attr == "graph"
@@ -53,9 +61,7 @@ def s1(run: Run, prog: Program):
         i, st = attach[0]
         obj = st.targets[0].value.id
         g = ast.unparse(st.value)
-        nxt = [s for s in body[i + 1:] if isinstance(s, ast.AugAssign)
-               and ast.unparse(s.target) == f"{obj}._mut_la"
-               and isinstance(s.op, ast.Add)]
+        nxt = [s_ for s_ in body[i + 1:] if is_bump_of(s_, obj, "_mut_la")]
         ok_bump = bool(nxt)
         run.oblige("S1", inst + ":bump", ok_bump, sample={"where": m.where})
         if not ok_bump:
@@ -265,16 +271,44 @@ def s3_fresh(run: Run, prog: Program, net, sv):
                 f"outdated) node weights")
 
 
+def _inlined_setter(prog, net):
+    """Network.adjacency's setter with its private helpers inlined (a copy of the
+    FuncInfo whose node is the statements the setter stands for)."""
+    import copy as _copy
+    from .idioms import inline_simple_helpers
+    st_ = net.props["adjacency"]["set"]
+
+    def _res(name):
+        h = prog.lookup(net, name)
+        return h.node if h is not None and name.startswith("_") and \
+            not name.startswith("__") else None
+    node = inline_simple_helpers(st_.node, _res)
+    if ast.dump(node) == ast.dump(st_.node):
+        return st_
+    out = _copy.copy(st_)
+    out.node = node
+    return out
+
+
 def s3(run: Run, prog: Program):
     """Writer/reader tables agree."""
     consts = []
     netcls = prog.classes.get("Network")
+    from .idioms import inline_simple_helpers
     for f in prog.functions():
         # the writer may live anywhere in Network; readers are the loaders
         if f.name not in ("save", "Load", "FromIGraph") and not (
                 f.cls is not None and netcls is not None and f.cls is netcls):
             continue
-        for c in ast.walk(f.node):
+        fnode = f.node
+        if f.cls is not None and f.name in ("save", "Load", "FromIGraph"):
+            # private helpers of the loader's class stand for their statements
+            def _res(name, _C=f.cls):
+                h = prog.lookup(_C, name)
+                return h.node if h is not None and name.startswith("_") and \
+                    not name.startswith("__") else None
+            fnode = inline_simple_helpers(f.node, _res)
+        for c in ast.walk(fnode):
             if isinstance(c, ast.Call) and isinstance(c.func, ast.Attribute) and \
                     c.func.attr in ("set_attribute_values", "get_attribute_values") \
                     and c.args and isinstance(c.args[0], ast.Constant):
@@ -327,8 +361,8 @@ def s3(run: Run, prog: Program):
                         f"Network.save writes the node weights only if {bad}: a graph "
                         f"that already carries the attribute (loaded or saved before) "
                         f"keeps the *old* weights in the file")
-    # undirected bookkeeping
-    st_ = net.props["adjacency"]["set"]
+    # undirected bookkeeping (private helpers of the setter stand for their code)
+    st_ = _inlined_setter(prog, net)
     def _halves_links(n):
         # self.n_links //= 2   |   self.n_links = <count> // 2
         if isinstance(n, ast.AugAssign) and isinstance(n.op, ast.FloorDiv) and \
@@ -359,10 +393,10 @@ def s3(run: Run, prog: Program):
                 flags.add(a_.targets[0].id)
         for i in ast.walk(fnode):
             if isinstance(i, ast.If) and negated_flag(i.test, flags) \
-                    and any(mirrors_edge_list(s_) for s_ in i.body):
+                    and any(mirrors_edge_list(s_, fnode) for s_ in i.body):
                 return True
             if isinstance(i, ast.If) and ast.unparse(i.test) in flags \
-                    and any(mirrors_edge_list(s_) for s_ in i.orelse):
+                    and any(mirrors_edge_list(s_, fnode) for s_ in i.orelse):
                 return True
         return False
 
@@ -493,7 +527,7 @@ def _use_before_def(t, classlevel):
 def s5(run: Run, prog: Program):
     """adjacency.setter: link count and embedded graph come from the same
     edge enumeration."""
-    st_ = prog.classes["Network"].props["adjacency"]["set"]
+    st_ = _inlined_setter(prog, prog.classes["Network"])
     nl = [s for s in st_.node.body if isinstance(s, ast.Assign)
           and ast.unparse(s.targets[0]) == "self.n_links"]
     gr = [s for s in st_.node.body if isinstance(s, ast.Assign)
@@ -503,7 +537,8 @@ def s5(run: Run, prog: Program):
     from .idioms import inline_locals
     a = _dotted_names(inline_locals(st_.node, nl[0].value))
     b = set()
-    for k in gr[0].value.keywords if isinstance(gr[0].value, ast.Call) else []:
+    gval = inline_locals(st_.node, gr[0].value)      # self.graph = <local> is fine
+    for k in gval.keywords if isinstance(gval, ast.Call) else []:
         if k.arg == "edges":
             b = _dotted_names(inline_locals(st_.node, k.value))
     common = (a & b) - {"list", "len", "np", "self"}
